@@ -53,7 +53,7 @@ Section Script.
        for k, (goal_position, goal) in max_smt_goals.items():
            if goal_position >= len(goals): goals_to_remove.append(k)
            else: l = max_smt_goals_backtrack[k].pop(); goal.soft = goal.soft[:l]
-       for k in goals_to_remove: del max_smt_goals[k]; del max_smt_goals_backtrack[k] *)
+       for k in goals_to_remove: del max_smt_goals[k]; max_smt_goals_backtrack.pop(k, None) *)
   Definition pop_entry (glen : nat)
              (acc : result (list cgoal * list (nat * list nat) * list nat)) (e : nat * nat) :=
     bind acc (fun a =>
@@ -68,11 +68,7 @@ Section Script.
                end
            end).
   Definition del_goal (acc : result (list (nat * nat) * list (nat * list nat))) (k : nat) :=
-    bind acc (fun a =>
-      match lookup k (snd a) with
-      | None => Err KeyError                     (* del max_smt_goals_backtrack[k] *)
-      | Some _ => Ok (ddel k (fst a), ddel k (snd a))
-      end).
+    bind acc (fun a => Ok (ddel k (fst a), ddel k (snd a))).   (* del d1[k]; d2.pop(k, None) *)
   Definition pop1 (c : st) : result st :=
     match pop_last (backtrack c) with
     | None => Err IndexError
@@ -127,21 +123,23 @@ Section Script.
     bind (run st0 cs) (fun c => Ok (stack c, goals c)).
 
   (* get_strict_formula: PysmtValueError on push/pop or when check-sat does not occur
-     exactly once; otherwise And of the argument of every assert command *)
+     exactly once; otherwise And of the assertions collected by walking the assert and
+     reset-assertions commands in order (reset-assertions empties the collection) *)
   Definition is_push_pop (x : cmd F W) : bool :=
     match x with CPush _ | CPop _ => true | _ => false end.
   Definition is_check_sat (x : cmd F W) : bool :=
     match x with CCheckSat => true | _ => false end.
-  Fixpoint assert_args (cs : list (cmd F W)) : list F :=
+  Fixpoint assert_args (acc : list F) (cs : list (cmd F W)) : list F :=
     match cs with
-    | [] => []
-    | CAssert f :: r => f :: assert_args r
-    | _ :: r => assert_args r
+    | [] => acc
+    | CAssert f :: r => assert_args (acc ++ [f]) r
+    | CReset :: r => assert_args [] r
+    | _ :: r => assert_args acc r
     end.
   Definition get_strict_formula (cs : list (cmd F W)) : result (list F) :=
     if existsb is_push_pop cs then Err ValueError
     else if negb (Nat.eqb (length (filter is_check_sat cs)) 1) then Err ValueError
-    else Ok (assert_args cs).
+    else Ok (assert_args [] cs).
 End Script.
 
 Arguments RObj {F W}. Arguments RSoft {F W}.
